@@ -3,6 +3,7 @@ import CashewsVerif.Lemmas.Sweep
 import CashewsVerif.Lemmas.TtlFacade
 import CashewsVerif.Lemmas.Fine
 import CashewsVerif.Lemmas.Routed
+import CashewsVerif.Lemmas.MemLaws
 /-
 C01 — the in-memory store is a TTL key-value map for every command history.
 Property theorems only; helper lemmas live in `Lemmas/`.
@@ -421,5 +422,65 @@ example : HistWithin [0, 1] sampleHist ∧ [0, 1].length ≤ 2 := by
 example : ((Mem.init 2).run sampleHist).2 =
     [.bool true, .unit, .bool true, .int (-1), .val (some (.tok 2)), .bool true, .unit, .int 1,
      .int 1, .vals [some (.tok 2), some (.int 1), some (.tok 2)]] := by decide
+
+/-! ### Laws of single commands that hold in every state (no reachability, no capacity hypothesis) -/
+section AnyState
+open CashewsVerif.MemLaws
+
+/-- **Deleted means absent** — any state (reachable or not, purge on or off, expired or live
+entry): after `delete k` a read of `k` returns the default and the key reports no ttl. -/
+theorem delete_then_absent (s : Mem) (k : Key) :
+    ((s.step (.delete k)).1.step (.get k)).2 = .val none ∧
+    ((s.step (.delete k)).1.step (.getExpire k)).2 = .int (-2) := by
+  have h := rawDelete_lookup s k
+  simp only [Mem.step]
+  exact ⟨by rw [rawGet_of_lookup_none h], by rw [getExpire_of_lookup_none h]⟩
+
+/-- **`delete` answers what a read would have seen**: it returns `True` exactly when a read
+of the key at the same instant would have returned a value. -/
+theorem delete_reports_readability (s : Mem) (k : Key) :
+    (s.step (.delete k)).2 = .bool (s.rawGet k).2.isSome := by
+  simp only [Mem.step]
+  unfold Mem.rawDelete Mem.rawGet
+  split
+  · rfl
+  · split <;> simp [*]
+
+/-- **Cleared means absent**, for every key. -/
+theorem clear_then_absent (s : Mem) (k : Key) :
+    ((s.step .clear).1.step (.get k)).2 = .val none ∧
+    ((s.step .clear).1.step (.getExpire k)).2 = .int (-2) := by
+  simp [Mem.step, Mem.rawGet, Mem.getExpire]
+
+/-- **Reads are repeatable**: a second read at the same instant returns what the first did
+(the lazy expiry and the `move_to_end` of the first read are invisible to the second). -/
+theorem get_repeatable (s : Mem) (k : Key) :
+    ((s.step (.get k)).1.step (.get k)).2 = (s.step (.get k)).2 := by
+  simp only [Mem.step]
+  rcases rawGet_lookup s k with ⟨e, _, hl, hv, hs⟩ | ⟨hv, hs⟩
+  · rw [hv]
+    rw [rawGet_of_lookup_live hs (by rw [rawGet_now]; exact hl)]
+  · rw [hv, rawGet_of_lookup_none hs]
+
+/-- **Absent stays absent while only time passes**: once a read returned the default, no
+advance of the clock brings the key back. -/
+theorem absent_stays_absent (s : Mem) (k : Key) (dt : Nat)
+    (h : (s.step (.get k)).2 = .val none) :
+    (((s.step (.get k)).1.step (.adv dt)).1.step (.get k)).2 = .val none := by
+  simp only [Mem.step] at h ⊢
+  rcases rawGet_lookup s k with ⟨e, _, _, hv, _⟩ | ⟨_, hs⟩
+  · rw [hv] at h; simp at h
+  · rw [rawGet_of_lookup_none (by simpa using hs)]
+
+/-- **`exists` and `get` agree** at every instant in every state. -/
+theorem exists_iff_get (s : Mem) (k : Key) :
+    (s.step (.exists_ k)).2 = .bool true ↔ ∃ v, (s.step (.get k)).2 = .val (some v) := by
+  simp only [Mem.step]
+  cases h : (s.rawGet k).2 <;> simp
+
+example : ((Mem.init 2).run [.set 0 (.tok 1) (some 8) .always, .adv 8, .delete 0, .get 0, .getExpire 0]).2
+    = [.bool true, .unit, .bool false, .val none, .int (-2)] := by decide
+
+end AnyState
 
 end CashewsVerif.Props.C01
